@@ -30,6 +30,8 @@ Section EvInd.
   Hypothesis HAdjAllow : forall pe e, P pe -> P e -> P (AdjAllow pe e).
   Hypothesis HAdjLevel : forall pe e f, P pe -> P e -> P (AdjLevel pe e f).
   Hypothesis HByConsP : forall e a pre, P e -> P pre -> P (ByConsP e a pre).
+  Hypothesis HAdjLevelC : forall ce oe e f, P ce -> P oe -> P e -> P (AdjLevelC ce oe e f).
+  Hypothesis HAdjLevelC0 : forall ce e f, P ce -> P e -> P (AdjLevelC0 ce e f).
 
   Fixpoint ev_ind' (t : ev) : P t :=
     match t with
@@ -65,6 +67,8 @@ Section EvInd.
     | AdjAllow pe e => HAdjAllow pe e (ev_ind' pe) (ev_ind' e)
     | AdjLevel pe e f => HAdjLevel pe e f (ev_ind' pe) (ev_ind' e)
     | ByConsP e a pre => HByConsP e a pre (ev_ind' e) (ev_ind' pre)
+    | AdjLevelC ce oe e f => HAdjLevelC ce oe e f (ev_ind' ce) (ev_ind' oe) (ev_ind' e)
+    | AdjLevelC0 ce e f => HAdjLevelC0 ce e f (ev_ind' ce) (ev_ind' e)
     end.
 End EvInd.
 
@@ -270,6 +274,18 @@ Proof.
   apply rbind_ext; intro prop. apply rbind_ext; intro propd. apply rbind_ext; intro lowest.
   apply rbind_ext; intro pd. apply rbind_ext; intro drop. apply rbind_ext; intro adj0.
   rewrite (level_loop_ext fuel E F mx lowest adj0 prop H). reflexivity.
+Qed.
+
+Lemma calc_level_byc_ext : forall fuel CE CE' PV PV' OE OE' n prev mx,
+  (forall a b, CE a b = CE' a b) -> PV = PV' -> (forall pv a b, OE pv a b = OE' pv a b) ->
+  calc_level_byc fuel CE PV OE n prev mx = calc_level_byc fuel CE' PV' OE' n prev mx.
+Proof.
+  intros fuel CE CE' PV PV' OE OE' n prev mx H1 H2 H3. subst PV'. unfold calc_level_byc. rewrite H1.
+  apply rbind_ext; intro cr. apply rbind_ext; intro crd. apply rbind_ext; intro minima.
+  apply rbind_ext; intro lowest0. apply rbind_ext; intro pd. apply rbind_ext; intro lowest.
+  apply rbind_ext; intro drop. apply rbind_ext; intro adj0. apply rbind_ext; intro pv.
+  rewrite H3. apply rbind_ext; intro prop.
+  rewrite (level_loop_ext fuel (OE pv) (OE' pv) mx lowest adj0 prop (H3 pv)). reflexivity.
 Qed.
 
 (* ------------------------------------------------------------------ the composition theorem *)
@@ -620,6 +636,35 @@ Section Compose.
     apply rbind_ext; intro adj. apply rbind_ext; intro n'. apply agree_npm; auto.
   Qed.
 
+  Lemma case_adjlevelc : forall ce oe e f, agree ce -> agree oe -> agree e ->
+    takes ce KSeats = true -> takes ce KMax = true -> (forall v, seat_ok ce v = true) ->
+    takes oe KSeats = true -> takes oe KMax = true -> (forall v, seat_ok oe v = true) ->
+    takes_spm e = true -> (forall v, seat_ok e v = true) -> agree (AdjLevelC ce oe e f).
+  Proof.
+    intros ce oe e f IHc IHo IH Hcs Hcm Hanyc Hos Hom Hanyo Hspm Hany st [s p m pl lv cl] votes Hf _.
+    unfold takes_spm in Hspm. rewrite !andb_true_iff in Hspm. destruct Hspm as [[Hs Hp] Hm].
+    cbn [run_impl run_spec]. rewrite bind_style_adj, accept_adj.
+    destruct s as [n|], p as [g|], pl, lv, cl; try reflexivity. cbn [rbind]. kw_simpl'.
+    rewrite (calc_level_byc_ext f _ (fun n0 mx => RS ce votes (KW (Some n0) None (Some mx) None None None))
+               _ (totals_s votes) _ (fun pv h mx => RS oe pv (KW (Some h) None (Some mx) None None None)));
+      [|intros a b; apply calc_call; auto|symmetry; apply totals_s_eq|intros pv a b; apply calc_call; auto].
+    apply rbind_ext; intro adj. apply rbind_ext; intro n'. apply agree_npm; auto.
+  Qed.
+
+  Lemma case_adjlevelc0 : forall ce e f, agree ce -> agree e ->
+    takes ce KSeats = true -> takes ce KMax = true -> (forall v, seat_ok ce v = true) ->
+    takes_spm e = true -> (forall v, seat_ok e v = true) -> agree (AdjLevelC0 ce e f).
+  Proof.
+    intros ce e f IHc IH Hcs Hcm Hanyc Hspm Hany st [s p m pl lv cl] votes Hf _.
+    unfold takes_spm in Hspm. rewrite !andb_true_iff in Hspm. destruct Hspm as [[Hs Hp] Hm].
+    cbn [run_impl run_spec]. rewrite bind_style_adj, accept_adj.
+    destruct s as [n|], p as [g|], pl, lv, cl; try reflexivity. cbn [rbind]. kw_simpl'.
+    rewrite (calc_level_byc_ext f _ (fun n0 mx => RS ce votes (KW (Some n0) None (Some mx) None None None))
+               _ (Ok votes) _ (fun pv h mx => RS ce pv (KW (Some h) None (Some mx) None None None) >>= merged_distr));
+      [|intros a b; apply calc_call; auto|reflexivity|intros pv a b; cbv beta; apply (f_equal (fun r => r >>= merged_distr)); apply calc_call; auto].
+    apply rbind_ext; intro adj. apply rbind_ext; intro n'. apply agree_npm; auto.
+  Qed.
+
   (* C14_compose: for every well-typed, faithful tree of ANY depth, every call style, every
      admissible set of supplied arguments and every vote value, the code-shaped semantics equals
      the by-hand composition. *)
@@ -651,7 +696,7 @@ Section Compose.
     - destruct Hw as [[[? ?] Ha] ?]. destruct Hfa. apply case_tiebr; auto. apply seat_any_ok; exact Ha.
     - destruct Hw. apply case_plistc; auto.
     - destruct Hw as [[? ?] Hle]. destruct Hfa.
-      destruct t2 as [l k| | | | | | | | | | | | | | | | | | | | |]; try discriminate Hle.
+      destruct t2 as [l k| | | | | | | | | | | | | | | | | | | | | | |]; try discriminate Hle.
       destruct k; try discriminate Hle. apply case_plisto; auto.
     - apply case_vsys; auto.
     - apply case_unused. rewrite forallb_forall in Hw, Hfa. rewrite Forall_forall in *.
@@ -664,6 +709,10 @@ Section Compose.
       apply case_adjlevel; auto; apply seat_any_ok; assumption.
     - destruct Hw as [[[[? Hpm] Ha] ?] ?]. destruct Hfa as [[[Q1 Q2] ?] ?]. apply eqb_prop in Q1, Q2.
       apply case_byconsp; auto; [intro Hp; rewrite Hp in Hpm; exact Hpm|apply seat_any_ok; exact Ha].
+    - destruct Hw as [[[[[[[[[[? ?] Ha] ?] ?] ?] Hb] ?] ?] Hc] ?]. destruct Hfa as [[? ?] ?].
+      apply case_adjlevelc; auto; apply seat_any_ok; assumption.
+    - destruct Hw as [[[[[[? ?] Ha] ?] ?] Hb] ?]. destruct Hfa.
+      apply case_adjlevelc0; auto; apply seat_any_ok; assumption.
   Qed.
 
   (* trees in which every apportioner and overall evaluator takes a seat count need no condition on the seat argument *)
